@@ -18,7 +18,7 @@ INPUT_TYPE = "input3"
 
 
 def run_impl(case):
-    if case["pipe"]:
+    if case["pipe"] and case.get("wmode", "sync") == "sync":
         out = base.drive(case, pipelined=True)
         return [b"".join(o[0] for o in out), out[-1][1]]
     out = base.drive(case, second=True)
@@ -46,7 +46,7 @@ def coq_input(case):
 
 def mk(pipe=False, **kw):
     c = base.mk(**kw)
-    c["pipe"] = pipe
+    c["pipe"] = pipe and c["wmode"] == "sync"      # pipelining is only combined with synchronous writes
     return c
 
 
@@ -87,6 +87,22 @@ def product(verconn, shapes, pipes):
     return out
 
 
+SHAPES_W = [
+    [("W", "x"), ("X",)],                                      # finishes explicitly (early finish when in prepare)
+    [("W", "x")],                                              # finished automatically (after the body)
+    [("W", "x"), ("F",), ("W", "y"), ("X",)],                  # streamed, explicit finish
+]
+
+
+def transport_product(verconn, meths, shapes):
+    """early finish x {write completes after / before the request body remainder arrived} x version/keep-alive factors"""
+    out = []
+    for wmode, (ver, conn), meth, body, early, prog in itertools.product(
+            ["after", "before"], verconn, meths, ["none", "cl", "chunked"], [True, False], shapes):
+        out.append(mk(meth=meth, ver=ver, conn=conn, body=body, early=early, prog=prog, wmode=wmode))
+    return out
+
+
 def safe_prog(rng):
     """random C02 program without the inputs that trigger the C02 known finding or leave the domain"""
     while True:
@@ -102,16 +118,17 @@ def safe_prog(rng):
 
 def gen_cases(rng, tier):
     if tier == "quick":
-        out = product(VERCONN_Q, SHAPES_Q, (None,))
+        out = product(VERCONN_Q, SHAPES_Q, (None,)) + transport_product(VERCONN_Q, ["POST", "GET"], SHAPES_W[:2])
         n = 150
     else:
-        out = product(VERCONN_T, SHAPES_T, (False, True))
+        out = product(VERCONN_T, SHAPES_T, (False, True)) + transport_product(VERCONN_T, ["GET", "HEAD", "POST"], SHAPES_W + SHAPES_T[9:11])
         n = 1500
     for _ in range(n):
         ver, conn = rng.choice(VERCONN_T)
         meth = rng.choice(["GET", "HEAD", "POST"])
         out.append(mk(pipe=rng.random() < 0.5, meth=meth, ver=ver, conn=conn, body=rng.choice(["none", "cl", "chunked"]),
                       nka=rng.random() < 0.2, early=rng.random() < 0.3, prog=safe_prog(rng),
+                      wmode=rng.choice(["sync", "sync", "after", "before"]),
                       inm=base.rand_inm(rng, []) if rng.random() < 0.2 else None))
     return out
 
@@ -128,6 +145,10 @@ def corpus_cases():
         # open known finding "early-finish-before-body-read": response finished before the request body was read
         mk(meth="POST", ver="1.1", body="cl", early=True, prog=[("W", "x"), ("X",)]),
         mk(meth="POST", ver="1.0", conn="keep-alive", body="cl", early=True, prog=[("S", 413), ("X",)]),
+        # the same with a blocked transport: the decision must not depend on when the response write completes
+        mk(meth="POST", ver="1.1", body="cl", early=True, prog=[("W", "x"), ("X",)], wmode="after"),
+        mk(meth="POST", ver="1.1", body="cl", early=True, prog=[("W", "x"), ("X",)], wmode="before"),
+        mk(meth="POST", ver="1.1", body="chunked", early=False, prog=[("W", "x"), ("F",), ("W", "y")], wmode="after"),
         # early handler that does not finish in prepare(): finished after the body, stays open
         mk(meth="POST", ver="1.1", body="chunked", early=True, prog=[("W", "x")]),
     ]
@@ -144,6 +165,7 @@ def classify(case, o):
     yield "no_keep_alive=%s" % case["nka"]
     yield "early=%s" % case["early"]
     yield "pipelined=%s" % case["pipe"]
+    yield "writes=" + case.get("wmode", "sync")
     yield "streamed=%s" % any(o_[0] == "F" for o_ in case["prog"])
     if isinstance(o, list) and len(o) == 4:
         yield "kept_open=%s" % (not o[1])
@@ -155,6 +177,9 @@ def signature(case, o):
     except Exception:
         return "probe-failed"
     if pr["early_fin"]:
+        closed_after_first = (o[1] if len(o) == 4 else None) if isinstance(o, list) else None
+        if closed_after_first is False:
+            return "early-finish-kept-open"        # NOT the known finding: the server must close here
         return "early-finish-before-body-read"
     if pr["wh_raised"]:
         return "write-headers-raised"
@@ -162,8 +187,14 @@ def signature(case, o):
 
 
 def shrink(case):
-    for c in base.shrink(case):
-        yield c
+    """Only the program, If-None-Match and the pipelining are shrunk: early / request body / write order / version
+    decide which class of failure a case is in (the open known finding closes the connection, a kept-open early
+    finish is a different failure), and a shrunk case must stay in its class."""
+    p = case["prog"]
+    for i in range(len(p)):
+        yield dict(case, prog=p[:i] + p[i + 1:])
+    if case["inm"] is not None:
+        yield dict(case, inm=None)
     if case["pipe"]:
         yield dict(case, pipe=False)
 
